@@ -395,7 +395,8 @@ func namesGen(r *rand.Rand, n int, emit func(core.Case)) {
 		case k < 6:
 			emit(core.Case{"op": "camel", "s": randIdent(r, true)})
 		case k < 12:
-			s := randSanitizeInput(r)
+			// canonical form: adjacent raw bytes may happen to form a valid UTF-8 sequence
+			s := runes(text(randSanitizeInput(r)))
 			emit(core.Case{"op": "sanitize", "s": s, "cls": classes(text(s))})
 		case k < 17:
 			emit(core.Case{"op": "fieldmask", "s": randIdent(r, true)})
@@ -410,13 +411,16 @@ func randMsgCase(r *rand.Rand) core.Case {
 	take := func() string { s := nameVocab[perm[0]]; perm = perm[1:]; return s }
 	nf := 1 + r.IntN(5)
 	fields := []any{}
-	anyMem := false
+	// the members of the oneof must be declared consecutively (protodesc enforces it)
+	memFrom, memTo := -1, -1
+	if r.IntN(2) == 0 {
+		memFrom = r.IntN(nf)
+		memTo = memFrom + r.IntN(nf-memFrom)
+	}
+	anyMem := memFrom >= 0
 	for i := 0; i < nf; i++ {
-		f := core.Case{"n": runes(take()), "mem": false, "rep": false}
-		switch r.IntN(4) {
-		case 0:
-			f["mem"], anyMem = true, true
-		case 1:
+		f := core.Case{"n": runes(take()), "mem": i >= memFrom && i <= memTo, "rep": false}
+		if !core.Bool(f["mem"]) && r.IntN(4) == 0 {
 			f["rep"] = true
 		}
 		fields = append(fields, f)
